@@ -17,6 +17,10 @@ package main
 // the existing name, a sparse write beyond the new end, read everything back) mirrored call by call on an os.File twin:
 // what a file holds is the outcome of everything done to it (the bytes of a hole are zeros, whatever was there before).
 //
+// And SEVERAL Files open on one served file at once (c01_multi.go): opened in every mode while the others stay open,
+// transfers interleaved through all of them, hard links / renames / removes of the name under them, mirrored on os twins:
+// the served file is one thing however many handles and names refer to it.
+//
 // Oracles: (1) outcome: bytes delivered / stored, count, error; (2) wire conformance on the
 // scripted peer: the multiset of (offset, length) READ/WRITE requests is the chunk plan;
 // (3) the same outcome when the replies are permuted. Model: the recorded plan is compared with
@@ -355,6 +359,8 @@ type xfJob struct {
 	Fault bool
 	// Hist (C01): histories of one file (xfer_hist.go) instead of single transfers
 	Hist bool
+	// Multi (C01): histories with several Files open on one served file at once (c01_multi.go)
+	Multi bool
 }
 
 // xfApplyOpen gives the case its open mode. For the modes that empty the file the drawn size becomes what the name
@@ -447,6 +453,7 @@ func checkC01(c *lib.Ctx) {
 	thorough := c.Tier == "thorough"
 	r.Rule = "transfers = server kind {os, rs} x {allocator off,on} x {max-tx default, 65536} plus scripted peer {in order, permuted replies} x client options MaxPacket{Checked,Unchecked} mp in {1,2,3,4,7,32768} (and 40000 against the servers with max-tx 65536; 262131, 262132, 262135 = around the allocator page / frame limit against both servers with max-tx 262144, allocator on and off, reads of k*p-1,k*p,k*p+1 for k<=3) x MaxConcurrentRequestsPerFile in {1,2,3,64} x UseConcurrentReads x UseConcurrentWrites x UseFstat (quick: every (mp,conc) pair three times per server kind with the booleans rotating; thorough: the full product) x API {ReadAt, Read, WriteTo, WriteAt, Write, ReadFrom with sources Len/Size/Stat/LimitedReader/opaque(+1-byte reads, lying or negative Size, oversized limit), ReadFromWithConcurrency 0/1/3} x (file size, offset, length) from {0,1,k*mp-1,k*mp,k*mp+1 (k=1..3), mp*conc+r} and uniform draws up to 3*mp*conc+2 (thorough: every length 0..3*mp*conc+2 for mp<=7, conc<=3) x open mode of the File {O_RDONLY, O_WRONLY, O_RDWR, each with/without O_CREATE, O_APPEND (the servers take the offsets the client sends: the bytes land at the File offset), O_TRUNC and Client.Create() (the name held pre_open_len bytes before; the transfer sees an empty file), O_CREATE|O_EXCL on a new name, O_CREATE|O_EXCL on an existing name (the open must fail and change nothing)}: the mode rotates over the cases (thorough: also the explicit product mode x API variant x server kind for every fourth option set); the OPEN pflags are read off the wire on the scripted peer, Request.Pflags() in the handler on the request server x request server WITHOUT sftp.OpenFileWriter (FilePut has Filewrite only: a read-write open is served by Filewrite, writes work, every read through that handle must return (0, failure status), deliver nothing, leave file and offset alone, and Close must still release the handle) x client packet size 40000 above the default server max payload 32768 on the refilling read paths (ReadAt/Read/WriteTo with concurrent reads off); plus HANDLER-SIDE FAILURES on the request server {allocator off, on} (thorough: also max-tx 65536) x every (mp,conc) pair x every API variant x 3 (thorough 12; ReadAt/Read/WriteTo: 9 resp. 36) geometries: the in-memory handler's backend breaks at a byte offset At drawn from {chunk start, chunk start+1, chunk end-1, 0, size-1, size, end of the transfer (+1: beyond it, a control)} and a ReadAt / WriteAt touching bytes at or beyond At returns (0, err) or (the bytes below At, err), err rotating through 29 VALUES {io.EOF (premature: the file then ends at At), io.ErrUnexpectedEOF bare / %w-wrapped / in *os.PathError / errors.Join-ed, os.ErrNotExist, os.ErrPermission, %w-wrapped os.ErrNotExist, syscall errnos EIO ENOSPC ENOENT EBADF EDQUOT EINVAL bare and in *os.PathError (ENOENT, EACCES, os.ErrPermission, custom), errors.New, custom types (pointer, with Timeout()), io.ErrClosedPipe, io.ErrShortWrite, fs.ErrClosed, sftp.ErrSSHFxFailure/OpUnsupported/ConnectionLost; for writes also sftp.ErrSSHFxEOF and wrapped io.EOF}, through opens served by Fileread / Filewrite / OpenFile: a nil error only if everything up to the requested end moved, io.EOF only where the file ends, otherwise a non-nil non-EOF error, n within the bytes below At that were delivered / stored contiguously from the start offset, those bytes intact, the offset at start + n (writes: within [start, start + stored]); a case is non-trivial when it needs more than one packet or touches end of file; distinct by (server, options, api, source, sizes)"
 	r.Rule += "; plus the request server over the package's OWN example backend sftp.InMemHandler() {allocator off, on} (xfer_inmem.go: stored and read back by direct calls of its handlers, a fresh file object per case): one covering option set per (mp,conc) pair (32 KiB packets with at most 3 requests per file and half of the variants: memFile.WriteAt sleeps 1 us per byte) x every API variant x open mode as above (documented difference, counted and not asked: an EMPTY write beyond the end of the file extends an InMemHandler file with zeros); plus HISTORIES of one file (xfer_hist.go) against {InMemHandler, InMemHandler+allocator, InMemHandler+max-tx 65536, os, rs, scripted peer, os+allocator, rs+allocator+max-tx 65536} x one covering option set, 4 (thorough 16; 32 KiB packets: a quarter) per option set, 2-3 rounds each of: the file holds data up to hi in {2, mp+1, 2mp, 2mp+1, 3mp, 3mp+2, mp*min(conc,3)+mp+1} (appended or rewritten through WriteAt / Seek+Write / Seek+ReadFrom(6 source kinds) / Seek+ReadFromWithConcurrency(0,1,3)), it is SHRUNK (File.Truncate to {0,1,2,mp-1,mp,half,size-1}; or Close + the same name opened again with O_TRUNC / Client.Create() / O_CREATE|O_TRUNC / plain; or the File of the history is itself opened with O_TRUNC / Create() / O_CREATE|O_TRUNC over a name that held 3mp+2 bytes), a SPARSE write starts gap in {1,2,mp-1,mp,mp+1,2mp+1} bytes beyond the new end with a length in {1,2,mp,mp+1,2mp+1} (half of them ending below what the file held before it was shrunk; a quarter after the file was extended again by Truncate, some of those into the middle of that extension), sometimes a second write further out and one byte into the hole between, and everything is READ BACK (ReadAt of size+1 bytes at 0 / Seek(0)+WriteTo / Seek(0)+Read; Seeks by all three whences), then Close and 4-18 calls after Close; every call is mirrored on an os.File twin over a local file: counts, bytes, errors and offsets after every call, the served file (read on the server side) against the twin after every mutation - the bytes of a hole are zeros whatever the file held there before; a failing history is shrunk call by call; keys history/<call>/<path>/<site>"
+	r.Rule += "; plus MULTI-HANDLE histories (c01_multi.go) against {InMemHandler, InMemHandler+allocator, os, os+allocator, rs (the harness's handlers), rs+allocator+max-tx 65536} x one covering option set, 3 (thorough 12; 32 KiB packets: 1 resp. 3) per option set: up to 4 Files open AT ONCE on two names of the served file system, 12-21 steps (32 KiB packets: 8-12) of: open a further File in any of the 14 modes {O_RDONLY, O_WRONLY, O_RDWR} x {O_CREATE, O_APPEND, O_TRUNC, O_CREATE|O_EXCL}, Client.Create() while the others stay open (the second open of a history rotates through all modes, a third of the later ones are truncating; opens that must be refused included), transfers through ANY open File whose mode allows it (WriteAt / Seek+Write / Seek+ReadFrom(6 source kinds) / Seek+ReadFromWithConcurrency(0,1,3); ReadAt / Seek+Read / Seek+WriteTo) at offsets {0,1,size-1,size,size+1,size+mp,the File offset,mp-1,mp,size-len,half} with lengths {1,2,mp-1,mp,mp+1,2mp+1,mp*min(conc,3)+1}, after every successful open a write and a read through Files that were open on the file BEFORE it, File.Truncate / File.Stat / Seek by three whences / Close of one of them, and (os, InMemHandler) a hard link under the second name, Rename / PosixRename, Remove of a name under the open Files (a name created again is another file); the name held {nothing, 0, 1, 2, mp, mp+1, 2mp+1, 3mp+2} bytes before; every step is mirrored by package os on twin files (one os.File per File, same flags minus O_APPEND, same links/renames/removes): count, bytes, error class and offset after every call, after every call that can change anything what each NAME holds on the server side and what EVERY open File with read access reads (ReadAt of size+1 bytes at 0) against the twin, at the end all closed, names compared, no handle left on the server; a failing history is shrunk step by step; keys multi/<call>[/<open mode>]/<site>"
 	model := xfProbeModel(c)
 	xfProbeDefects(&model)
 	if model.Seq {
@@ -641,6 +648,60 @@ func checkC01(c *lib.Ctx) {
 		return real
 	}
 
+	// runMulti runs one multi-handle history (c01_multi.go). It returns the pair to go on with (a new one after a hang).
+	runMulti := func(mc xfMultiCase, real *xfReal, dir string, slot int) *xfReal {
+		run := func(mc xfMultiCase) xfMultiResult { return xfRunMulti(mc, real, dir, slot) }
+		mr := run(mc)
+		res.Case(mc.Text(), true)
+		hs := []string{"multi|srv=" + mc.Srv.String(), fmt.Sprintf("multi|opt=mp%d|c%d", mc.Cfg.MP, mc.Cfg.Conc),
+			fmt.Sprintf("multi|opt=cr%d|cw%d|fstat%d", xfB(mc.Cfg.CR), xfB(mc.Cfg.CW), xfB(mc.Cfg.Fstat)), fmt.Sprintf("multi|name-held-before=%s", xfMultiBefore(mc))}
+		for k, n := range mr.Marks {
+			if n > 0 {
+				hs = append(hs, "multi|"+k)
+				if mc.Srv.InMem && !strings.HasPrefix(k, "call=") {
+					hs = append(hs, "multi|srv=InMemHandler|"+k)
+				}
+			}
+		}
+		res.Hist(hs...)
+		report := func(mc xfMultiCase, fs []xfSeqFailure) {
+			for _, f := range fs {
+				res.Fail(lib.Failure{Kind: "oracle", Key: f.Key, What: fmt.Sprintf("%s (step #%d of the multi-handle history)", f.What, f.At), Input: mc, Expected: f.Expected, Actual: f.Actual})
+			}
+		}
+		restart := func() *xfReal {
+			real.Shutdown()
+			nr, err := xfStartPair(mc.Srv, mc.Cfg, dir)
+			if err != nil {
+				res.Fail(lib.Failure{Kind: "tie", Key: "setup/pair", What: err.Error(), Input: mc})
+				return nil
+			}
+			return nr
+		}
+		switch {
+		case mr.Hung:
+			hangs.Add(mc.Srv)
+			report(mc, mr.Fails)
+			return restart()
+		case mr.SetupErr != nil:
+			res.Fail(lib.Failure{Kind: "tie", Key: "setup/multi", What: mr.SetupErr.Error(), Input: mc})
+			return restart()
+		case len(mr.Fails) > 0:
+			small := xfShrinkMulti(mc, mr.Fails[0], run)
+			sr := run(small)
+			if sr.Hung {
+				hangs.Add(mc.Srv)
+				report(mc, mr.Fails)
+				return restart()
+			}
+			if len(sr.Fails) == 0 || sr.SetupErr != nil {
+				small, sr = mc, mr // (not reproduced in the shrunk form: the history as it was drawn)
+			}
+			report(small, sr.Fails)
+		}
+		return real
+	}
+
 	if c.Replay != "" {
 		inputs, err := xfReplayInputs(c.Replay)
 		if err != nil {
@@ -648,6 +709,19 @@ func checkC01(c *lib.Ctx) {
 			return
 		}
 		for _, raw := range inputs {
+			var mh xfMultiCase
+			if json.Unmarshal(raw, &mh) == nil && len(mh.Steps) > 0 {
+				// several Files open on one served file (c01_multi.go)
+				real, err := xfStartPair(mh.Srv, mh.Cfg, root)
+				if err != nil {
+					r.Fail(lib.Failure{Kind: "tie", Key: "setup/pair", What: err.Error()})
+					return
+				}
+				if real = runMulti(mh, real, root, 0); real != nil {
+					real.Shutdown()
+				}
+				continue
+			}
 			var sc xfSeqCase
 			if json.Unmarshal(raw, &sc) == nil && len(sc.Ops) > 0 && sc.Race == nil && sc.Pair == nil {
 				// a history of one file (xfer_hist.go)
@@ -771,6 +845,13 @@ func checkC01(c *lib.Ctx) {
 			jobs = append(jobs, xfJob{Hist: true, Spec: sp, Cfg: cfg, Seed: c.Rand.Int63(), Idx: len(jobs)})
 		}
 	}
+	// several Files open on one served file at once (c01_multi.go), the package's own InMemHandler first
+	for si, sp := range []xfSrvSpec{{Kind: "rs", InMem: true}, {Kind: "rs", InMem: true, Alloc: true}, {Kind: "os"}, {Kind: "os", Alloc: true},
+		{Kind: "rs"}, {Kind: "rs", Alloc: true, MaxTx: 65536}} {
+		for _, cfg := range xfCoverCfgs(si*3 + rot + 3) {
+			jobs = append(jobs, xfJob{Multi: true, Spec: sp, Cfg: cfg, Seed: c.Rand.Int63(), Idx: len(jobs)})
+		}
+	}
 	variants := xfAPIVariants(thorough)
 	var sampleMu sync.Mutex
 	sampled := map[string]bool{}
@@ -797,6 +878,38 @@ func checkC01(c *lib.Ctx) {
 		hold := &xfPeerHold{slot: w}
 		defer hold.Close()
 		cfg := job.Cfg
+		if job.Multi {
+			n := 3
+			if thorough {
+				n = 12
+			}
+			if cfg.MP > 1000 {
+				n = (n + 3) / 4
+			}
+			for s := 0; s < n; s++ {
+				if hangs.Spent(job.Spec) {
+					return
+				}
+				mh := xfGenMulti(rng, job.Spec, cfg, job.Idx*7+s*5+rot)
+				cur := runMulti(mh, real, dir, w)
+				if cur != real {
+					if cur != nil {
+						defer cur.Shutdown()
+					}
+					real = cur
+				}
+				if real == nil {
+					return
+				}
+				sampleMu.Lock()
+				if tag := "multi/" + job.Spec.Kind; !sampled[tag] && cfg.MP < 100 && len(sampled) < 14 {
+					sampled[tag] = true
+					res.Sample(mh)
+				}
+				sampleMu.Unlock()
+			}
+			return
+		}
 		if job.Hist {
 			n := 4
 			if thorough {
